@@ -333,7 +333,7 @@ func runC16(c C16Case, o *Obs) error {
 	conn := newConn()
 	defer conn.Close()
 	tn := uniqName("t")
-	spec := TableSpec{Name: tn, Columns: "k primary key, a, b, c", Bucket: bucket, Client: "w", Prefix: c.Prefix, EPN: c.EPN, Cache: c.Cache}
+	spec := TableSpec{Name: tn, Columns: "k primary key, a, b, c", Bucket: bucket, Client: "w", Prefix: c.Prefix, EPN: c.EPN, Cache: k4Cache(c.EPN, c.NKeys, c.Cache, o)}
 	if err := conn.Create(spec); err != nil {
 		return fmt.Errorf("create: %v", err)
 	}
